@@ -319,7 +319,15 @@ impl<L: LSPLang> Backend<L> {
     let mut diagnostics = self
       .get_diagnostics(&uri, &versioned)
       .ok_or(LspError::NoActionableFix)?;
-    diagnostics.sort_by_key(|d| (d.range.start, d.range.end));
+    // document order like `scan --update-all`: an outer match comes before the matches nested
+    // in it, matches of several rules on one node are ordered by rule id
+    diagnostics.sort_by_key(|d| {
+      let rule_id = match &d.code {
+        Some(NumberOrString::String(id)) => id.clone(),
+        _ => String::new(),
+      };
+      (d.range.start, std::cmp::Reverse(d.range.end), rule_id)
+    });
     let mut last = Position {
       line: 0,
       character: 0,
